@@ -1,17 +1,1583 @@
-use read_fonts::FontRead;
-use vh::*;
-use write_fonts::tables::glyf::{Bbox, Contour, SimpleGlyph};
+//! C09 harness: glyf/loca writer (write-fonts) vs reader (read-fonts) vs drawing (skrifa).
+//!
+//! Case kinds written for the Coq model (coq/C09/Model.v `eval_case`):
+//!   1 simple glyph  -> dump_table bytes + Glyph::read view of those bytes
+//!   2 arbitrary (mutated / random) bytes -> Glyph::read view
+//!   3 composite glyph -> bytes + view
+//!   4 Loca::new(offsets) -> format, bytes, get_raw of every index
+//!   5 glyph sequence -> GlyfLocaBuilder -> glyf, format, loca, get_glyf slice of every gid
+//! plus implementation-only oracles: decode(real encode(g)) == g, encoded length <= an independently
+//! computed canonical length, builder glyph i == i-th added glyph, unscaled skrifa drawing of a
+//! glyph built from a line/quad BezPath is geometrically that path.
+use read_fonts::tables::glyf as rg;
 use read_fonts::tables::glyf::CurvePoint;
+use read_fonts::types::{F2Dot14, GlyphId, GlyphId16};
+use read_fonts::{FontData, FontRead, FontRef, TableProvider};
+use serde_json::json;
+use vh::*;
+use write_fonts::tables::glyf::{
+    Anchor, Bbox, Component, ComponentFlags, CompositeGlyph, Contour, GlyfLocaBuilder, Glyph, SimpleGlyph, Transform,
+};
+use write_fonts::tables::loca::{Loca, LocaFormat};
+
+type Pt = (i16, i16, bool);
+
+#[derive(Clone, Debug)]
+struct SG {
+    bbox: [i16; 4],
+    contours: Vec<Vec<Pt>>,
+    instr: Vec<u8>,
+}
+#[derive(Clone, Debug, PartialEq)]
+struct Comp {
+    gid: u16,
+    akind: u8, // 0 offset, 1 point
+    a: i32,
+    b: i32,
+    uflags: u8, // bits: round, use_my_metrics, scaled, unscaled, overlap
+    tr: [i16; 4],
+}
+#[derive(Clone, Debug)]
+struct CG {
+    bbox: [i16; 4],
+    comps: Vec<Comp>,
+    instr: Vec<u8>,
+}
+#[derive(Clone, Debug)]
+enum G {
+    Empty,
+    Simple(SG),
+    Comp(CG),
+}
+
+fn bbox(b: [i16; 4]) -> Bbox {
+    Bbox { x_min: b[0], y_min: b[1], x_max: b[2], y_max: b[3] }
+}
+fn to_simple(g: &SG) -> SimpleGlyph {
+    SimpleGlyph {
+        bbox: bbox(g.bbox),
+        contours: g
+            .contours
+            .iter()
+            .map(|c| Contour::from(c.iter().map(|p| CurvePoint::new(p.0, p.1, p.2)).collect::<Vec<_>>()))
+            .collect(),
+        instructions: g.instr.clone(),
+    }
+}
+fn to_component(c: &Comp) -> Component {
+    let anchor = if c.akind == 0 {
+        Anchor::Offset { x: c.a as i16, y: c.b as i16 }
+    } else {
+        Anchor::Point { base: c.a as u16, component: c.b as u16 }
+    };
+    let f = ComponentFlags {
+        round_xy_to_grid: c.uflags & 1 != 0,
+        use_my_metrics: c.uflags & 2 != 0,
+        scaled_component_offset: c.uflags & 4 != 0,
+        unscaled_component_offset: c.uflags & 8 != 0,
+        overlap_compound: c.uflags & 16 != 0,
+    };
+    let t = Transform {
+        xx: F2Dot14::from_bits(c.tr[0]),
+        yx: F2Dot14::from_bits(c.tr[1]),
+        xy: F2Dot14::from_bits(c.tr[2]),
+        yy: F2Dot14::from_bits(c.tr[3]),
+    };
+    Component::new(GlyphId16::new(c.gid), anchor, t, f)
+}
+/// Builds the write-fonts composite. `_instructions` is private, so a composite with instructions
+/// can only be obtained by reading one: we compile the instruction-less glyph, patch the bytes by
+/// hand (WE_HAVE_INSTRUCTIONS on the last component + length + bytes) and read that back.
+fn to_composite(g: &CG) -> Result<CompositeGlyph, String> {
+    let mut it = g.comps.iter();
+    let first = it.next().ok_or("no components")?;
+    let mut cg = CompositeGlyph::new(to_component(first), bbox(g.bbox));
+    for c in it {
+        cg.add_component(to_component(c), bbox(g.bbox));
+    }
+    cg.bbox = bbox(g.bbox);
+    if g.instr.is_empty() {
+        return Ok(cg);
+    }
+    let mut bytes = write_fonts::dump_table(&cg).map_err(|e| format!("{e:?}"))?;
+    // find the last component's flag word by walking the components
+    let mut pos = 10usize;
+    loop {
+        let fl = u16::from_be_bytes([bytes[pos], bytes[pos + 1]]);
+        let mut n = 4 + if fl & 1 != 0 { 4 } else { 2 };
+        if fl & 0x8 != 0 {
+            n += 2
+        } else if fl & 0x40 != 0 {
+            n += 4
+        } else if fl & 0x80 != 0 {
+            n += 8
+        }
+        if fl & 0x20 == 0 {
+            bytes[pos] |= 0x01; // 0x0100 WE_HAVE_INSTRUCTIONS
+            bytes.truncate(pos + n);
+            break;
+        }
+        pos += n;
+    }
+    bytes.extend_from_slice(&(g.instr.len() as u16).to_be_bytes());
+    bytes.extend_from_slice(&g.instr);
+    CompositeGlyph::read(FontData::new(&bytes)).map_err(|e| format!("{e:?}"))
+}
+
+// ---------- Coq printing: chunked lists ----------
+fn chunks(v: &[i128]) -> String {
+    let mut out: Vec<String> = vec![];
+    let mut lit: Vec<i128> = vec![];
+    let mut i = 0;
+    while i < v.len() {
+        let mut j = i;
+        while j < v.len() && v[j] == v[i] {
+            j += 1;
+        }
+        if j - i >= 8 {
+            if !lit.is_empty() {
+                out.push(format!("B {}", czlist(lit.drain(..))));
+            }
+            out.push(format!("R {} {}", j - i, cz(v[i])));
+        } else {
+            lit.extend_from_slice(&v[i..j]);
+        }
+        i = j;
+    }
+    if !lit.is_empty() {
+        out.push(format!("B {}", czlist(lit.drain(..))));
+    }
+    format!("[{}]", out.join("; "))
+}
+fn zll(v: &[Vec<i128>]) -> String {
+    format!("[{}]", v.iter().map(|l| chunks(l)).collect::<Vec<_>>().join("; "))
+}
+fn b2z(b: &[u8]) -> Vec<i128> {
+    b.iter().map(|x| *x as i128).collect()
+}
+
+// ---------- input serialisation (mirrors mk_simple / mk_composite in Model.v) ----------
+fn ser_simple_in(g: &SG) -> Vec<Vec<i128>> {
+    let mut dxs = vec![];
+    let mut dys = vec![];
+    let mut ons = vec![];
+    let (mut lx, mut ly) = (0i128, 0i128);
+    for c in &g.contours {
+        for p in c {
+            dxs.push(p.0 as i128 - lx);
+            dys.push(p.1 as i128 - ly);
+            ons.push(p.2 as i128);
+            lx = p.0 as i128;
+            ly = p.1 as i128;
+        }
+    }
+    vec![
+        g.bbox.iter().map(|v| *v as i128).collect(),
+        g.contours.iter().map(|c| c.len() as i128).collect(),
+        dxs,
+        dys,
+        ons,
+        b2z(&g.instr),
+    ]
+}
+fn ser_comp_in(g: &CG) -> Vec<Vec<i128>> {
+    let mut cs = vec![];
+    for c in &g.comps {
+        cs.extend_from_slice(&[c.gid as i128, c.akind as i128, c.a as i128, c.b as i128, c.uflags as i128]);
+        cs.extend(c.tr.iter().map(|v| *v as i128));
+    }
+    vec![g.bbox.iter().map(|v| *v as i128).collect(), cs, b2z(&g.instr)]
+}
+
+// ---------- the read-fonts view of a byte string (mirrors ser_decode in Model.v) ----------
+fn ser_decode(bytes: &[u8]) -> Vec<Vec<i128>> {
+    let b = bytes.to_vec();
+    let r = catch(move || {
+        let g = match rg::Glyph::read(FontData::new(&b)) {
+            Ok(g) => g,
+            Err(_) => return vec![vec![1]],
+        };
+        match g {
+            rg::Glyph::Simple(s) => {
+                let mut hdr = vec![s.number_of_contours() as i128];
+                hdr.extend([s.x_min(), s.y_min(), s.x_max(), s.y_max()].iter().map(|v| *v as i128));
+                let ends: Vec<i128> = s.end_pts_of_contours().iter().map(|e| e.get() as i128).collect();
+                let ins = b2z(s.instructions());
+                let s2 = s.clone();
+                match catch(move || s2.points().collect::<Vec<_>>()) {
+                    Err(_) => vec![vec![2], hdr, ends, ins, vec![0], vec![], vec![], vec![]],
+                    Ok(pts) => {
+                        let (mut dxs, mut dys, mut ons) = (vec![], vec![], vec![]);
+                        let (mut lx, mut ly) = (0i128, 0i128);
+                        for p in pts {
+                            dxs.push(p.x as i128 - lx);
+                            dys.push(p.y as i128 - ly);
+                            ons.push(p.on_curve as i128);
+                            lx = p.x as i128;
+                            ly = p.y as i128;
+                        }
+                        vec![vec![2], hdr, ends, ins, vec![1], dxs, dys, ons]
+                    }
+                }
+            }
+            rg::Glyph::Composite(c) => {
+                let bb: Vec<i128> = [c.x_min(), c.y_min(), c.x_max(), c.y_max()].iter().map(|v| *v as i128).collect();
+                let mut cs = vec![];
+                for comp in c.components() {
+                    cs.push(comp.flags.bits() as i128);
+                    cs.push(comp.glyph.to_u16() as i128);
+                    match comp.anchor {
+                        rg::Anchor::Offset { x, y } => cs.extend([0, x as i128, y as i128]),
+                        rg::Anchor::Point { base, component } => cs.extend([1, base as i128, component as i128]),
+                    }
+                    let t = comp.transform;
+                    cs.extend([t.xx, t.yx, t.xy, t.yy].iter().map(|v| v.to_bits() as i128));
+                }
+                match c.instructions() {
+                    None => vec![vec![3], bb, cs, vec![0], vec![]],
+                    Some(i) => vec![vec![3], bb, cs, vec![1], b2z(i)],
+                }
+            }
+        }
+    });
+    r.unwrap_or_else(|_| vec![vec![0]])
+}
+
+fn ser_enc(res: &Result<Result<Vec<u8>, String>, String>) -> Vec<Vec<i128>> {
+    match res {
+        Err(_) => vec![vec![0]],
+        Ok(Err(_)) => vec![vec![2]],
+        Ok(Ok(b)) if b.is_empty() => vec![vec![1], vec![]],
+        Ok(Ok(b)) => {
+            let mut v = vec![vec![1], b2z(b)];
+            v.extend(ser_decode(b));
+            v
+        }
+    }
+}
+
+// ---------- independent canonical-length computation (oracle) ----------
+fn canon_coord_len(d: i32) -> usize {
+    if d == 0 {
+        0
+    } else if d.abs() <= 255 {
+        1
+    } else {
+        2
+    }
+}
+fn canon_flag(dx: i32, dy: i32, on: bool) -> u8 {
+    let mut f = on as u8;
+    f |= if dx == 0 {
+        0x10
+    } else if dx.abs() <= 255 {
+        0x02 | if dx > 0 { 0x10 } else { 0 }
+    } else {
+        0
+    };
+    f |= if dy == 0 {
+        0x20
+    } else if dy.abs() <= 255 {
+        0x04 | if dy > 0 { 0x20 } else { 0 }
+    } else {
+        0
+    };
+    f
+}
+/// shortest flags+coordinate encoding: per coordinate the shortest representable form, per maximal
+/// run of k identical flags 2*(k/256) + min(2, k%256) bytes.
+fn canonical_len(g: &SG) -> usize {
+    let nc = g.contours.len();
+    if nc == 0 {
+        return 0;
+    }
+    let mut n = 10 + 2 * nc + 2 + g.instr.len();
+    let (mut lx, mut ly) = (0i32, 0i32);
+    let mut flags = vec![];
+    for c in &g.contours {
+        for p in c {
+            let (dx, dy) = (p.0 as i32 - lx, p.1 as i32 - ly);
+            n += canon_coord_len(dx) + canon_coord_len(dy);
+            flags.push(canon_flag(dx, dy, p.2));
+            lx = p.0 as i32;
+            ly = p.1 as i32;
+        }
+    }
+    let mut i = 0;
+    while i < flags.len() {
+        let mut j = i;
+        while j < flags.len() && flags[j] == flags[i] {
+            j += 1;
+        }
+        let k = j - i;
+        n += 2 * (k / 256) + (k % 256).min(2);
+        i = j;
+    }
+    n + (n & 1)
+}
+
+/// inputs the writer must accept (anything else may legitimately panic in the checked profile)
+fn expected_accept(g: &SG) -> bool {
+    if g.contours.len() >= i16::MAX as usize || g.instr.len() >= u16::MAX as usize {
+        return false;
+    }
+    let mut cur = 0usize;
+    for c in &g.contours {
+        cur += c.len();
+        if cur == 0 || cur > 65535 {
+            return false;
+        }
+    }
+    let (mut lx, mut ly) = (0i32, 0i32);
+    for c in &g.contours {
+        for p in c {
+            let (dx, dy) = (p.0 as i32 - lx, p.1 as i32 - ly);
+            if !(-32768..=32767).contains(&dx) || !(-32768..=32767).contains(&dy) {
+                return false;
+            }
+            lx = p.0 as i32;
+            ly = p.1 as i32;
+        }
+    }
+    true
+}
+
+/// decode(real encode(g)) == g, directly on the implementation. Returns a description on failure.
+fn oracle_simple_bytes(g: &SG, bytes: &[u8]) -> Option<String> {
+    if g.contours.is_empty() {
+        return (!bytes.is_empty()).then(|| "glyph without contours wrote bytes".to_string());
+    }
+    if bytes.len() % 2 != 0 {
+        return Some("odd length".into());
+    }
+    let b = bytes.to_vec();
+    let g2 = g.clone();
+    let r = catch(move || -> Option<String> {
+        let s = match rg::Glyph::read(FontData::new(&b)) {
+            Ok(rg::Glyph::Simple(s)) => s,
+            Ok(_) => return Some("read back as composite".into()),
+            Err(e) => return Some(format!("read error {e:?}")),
+        };
+        if s.number_of_contours() as usize != g2.contours.len() {
+            return Some("contour count differs".into());
+        }
+        if [s.x_min(), s.y_min(), s.x_max(), s.y_max()] != g2.bbox {
+            return Some("bbox differs".into());
+        }
+        let mut cur = 0usize;
+        let ends: Vec<u16> = g2
+            .contours
+            .iter()
+            .map(|c| {
+                cur += c.len();
+                (cur - 1) as u16
+            })
+            .collect();
+        let rends: Vec<u16> = s.end_pts_of_contours().iter().map(|e| e.get()).collect();
+        if ends != rends {
+            return Some("end points differ".into());
+        }
+        if s.instructions() != g2.instr.as_slice() {
+            return Some("instructions differ".into());
+        }
+        let flat: Vec<Pt> = g2.contours.iter().flatten().cloned().collect();
+        let pts: Vec<Pt> = s.points().map(|p| (p.x, p.y, p.on_curve)).collect();
+        if pts != flat {
+            return Some(format!("points() differ ({} vs {})", pts.len(), flat.len()));
+        }
+        // the reader skrifa uses
+        let n = s.num_points();
+        let mut p32 = vec![read_fonts::types::Point::<i32>::default(); n];
+        let mut fl = vec![rg::PointFlags::default(); n];
+        if let Err(e) = s.read_points_fast(&mut p32, &mut fl) {
+            return Some(format!("read_points_fast error {e:?}"));
+        }
+        let fast: Vec<Pt> = p32.iter().zip(&fl).map(|(p, f)| (p.x as i16, p.y as i16, f.is_on_curve())).collect();
+        if fast != flat || p32.iter().any(|p| p.x != p.x as i16 as i32 || p.y != p.y as i16 as i32) {
+            return Some("read_points_fast differs".into());
+        }
+        // write-fonts' own reader: whole-struct equality (contours split by end points)
+        match SimpleGlyph::read(FontData::new(&b)) {
+            Ok(w) => {
+                if w != to_simple(&g2) {
+                    return Some("write_fonts::SimpleGlyph::read(bytes) != glyph".into());
+                }
+            }
+            Err(e) => return Some(format!("write-fonts read error {e:?}")),
+        }
+        None
+    });
+    match r {
+        Ok(x) => x,
+        Err(p) => Some(format!("reader panicked: {p}")),
+    }
+}
+
+fn oracle_comp_bytes(g: &CG, bytes: &[u8]) -> Option<String> {
+    if bytes.len() % 2 != 0 {
+        return Some("odd length".into());
+    }
+    let b = bytes.to_vec();
+    let g2 = g.clone();
+    let r = catch(move || -> Option<String> {
+        let c = match rg::Glyph::read(FontData::new(&b)) {
+            Ok(rg::Glyph::Composite(c)) => c,
+            Ok(_) => return Some("read back as simple".into()),
+            Err(e) => return Some(format!("read error {e:?}")),
+        };
+        if [c.x_min(), c.y_min(), c.x_max(), c.y_max()] != g2.bbox {
+            return Some("bbox differs".into());
+        }
+        let comps: Vec<rg::Component> = c.components().collect();
+        if comps.len() != g2.comps.len() {
+            return Some(format!("component count {} vs {}", comps.len(), g2.comps.len()));
+        }
+        for (i, (r, w)) in comps.iter().zip(&g2.comps).enumerate() {
+            let wc = to_component(w);
+            let last = i + 1 == g2.comps.len();
+            if r.glyph != wc.glyph || r.anchor != wc.anchor || r.transform != wc.transform {
+                return Some(format!("component {i} differs"));
+            }
+            if ComponentFlags::from(r.flags) != wc.flags {
+                return Some(format!("component {i} user flags differ"));
+            }
+            if r.flags.contains(rg::CompositeGlyphFlags::MORE_COMPONENTS) == last {
+                return Some(format!("component {i} MORE_COMPONENTS wrong"));
+            }
+        }
+        let ins = c.instructions().unwrap_or_default();
+        if ins != g2.instr.as_slice() {
+            return Some("instructions differ".into());
+        }
+        if c.count_and_instructions().0 != g2.comps.len() {
+            return Some("count_and_instructions count differs".into());
+        }
+        // minimal length: header + per component 4 + shortest anchor + shortest transform
+        let mut n = 10;
+        for w in &g2.comps {
+            let two = if w.akind == 0 { !(-128..=127).contains(&w.a) || !(-128..=127).contains(&w.b) } else { w.a > 255 || w.b > 255 };
+            n += 4 + if two { 4 } else { 2 };
+            n += if w.tr[1] != 0 || w.tr[2] != 0 {
+                8
+            } else if w.tr[0] != w.tr[3] {
+                4
+            } else if w.tr[0] != 16384 {
+                2
+            } else {
+                0
+            };
+        }
+        if !g2.instr.is_empty() {
+            n += 2 + g2.instr.len();
+        }
+        n += n & 1;
+        if b.len() > n {
+            return Some(format!("composite longer than canonical: {} > {}", b.len(), n));
+        }
+        None
+    });
+    match r {
+        Ok(x) => x,
+        Err(p) => Some(format!("reader panicked: {p}")),
+    }
+}
+
+// ---------- generators ----------
+fn pick_delta(rng: &mut Rng) -> i32 {
+    let mag = match rng.below(14) {
+        0 | 1 => 0,
+        2 => 1,
+        3 => rng.range(2, 254) as i32,
+        4 => 254,
+        5 => 255,
+        6 => 256,
+        7 => 257,
+        8 => rng.range(258, 2000) as i32,
+        9 => rng.range(2000, 32766) as i32,
+        10 => 32767,
+        11 => 32768,
+        12 => rng.range(1, 30) as i32,
+        _ => rng.range(32769, 65535) as i32, // not representable as an i16 difference
+    };
+    if rng.chance(1, 2) {
+        -mag
+    } else {
+        mag
+    }
+}
+fn gen_bbox(rng: &mut Rng) -> [i16; 4] {
+    let mut b = [0i16; 4];
+    for v in b.iter_mut() {
+        *v = match rng.below(6) {
+            0 => i16::MIN,
+            1 => i16::MAX,
+            2 => -1,
+            3 => 0,
+            _ => rng.range(-32768, 32767) as i16,
+        };
+    }
+    b
+}
+fn gen_instr(rng: &mut Rng) -> Vec<u8> {
+    match rng.below(5) {
+        0 | 1 => vec![],
+        2 => rng.bytes(1),
+        3 => { let n = rng.range(1, 12) as usize; rng.bytes(n) },
+        _ => vec![rng.next_u32() as u8; rng.range(8, 40) as usize],
+    }
+}
+/// point sequence generator: deltas by class, clamped into the i16 range (out-of-range deltas
+/// between in-range points are produced on purpose with low probability)
+fn gen_simple(rng: &mut Rng, allow_bad: bool) -> SG {
+    let nc = match rng.below(12) {
+        0 => 0,
+        1..=5 => 1,
+        6..=8 => 2,
+        9 => 3,
+        10 => rng.range(4, 9) as usize,
+        _ => rng.range(1, 3) as usize,
+    };
+    let mut contours = vec![];
+    let (mut x, mut y) = (0i32, 0i32);
+    for ci in 0..nc {
+        let mut n = match rng.below(8) {
+            0 => 1,
+            1 => 2,
+            2 | 3 => rng.range(3, 6) as usize,
+            4 => rng.range(6, 14) as usize,
+            _ => rng.range(1, 4) as usize,
+        };
+        if rng.chance(1, 40) && (ci > 0 || allow_bad) {
+            n = 0; // empty contour: in the middle harmless, first = `0u16 - 1` trap
+        }
+        let mut c = vec![];
+        let mut i = 0;
+        while i < n {
+            // a run of identical steps -> identical flags
+            let run = match rng.below(10) {
+                0 => 2,
+                1 => 3,
+                2 => rng.range(2, 5) as usize,
+                _ => 1,
+            };
+            let mut dx = pick_delta(rng);
+            let mut dy = pick_delta(rng);
+            if !allow_bad || !rng.chance(1, 12) {
+                // keep representable
+                dx = dx.clamp(-32768, 32767);
+                dy = dy.clamp(-32768, 32767);
+            }
+            let on = rng.chance(2, 3);
+            for _ in 0..run.min(n - i) {
+                let nx = (x + dx).clamp(-32768, 32767);
+                let ny = (y + dy).clamp(-32768, 32767);
+                // deltas that do not fit in i16 only arise from x,y at opposite ends
+                c.push((nx as i16, ny as i16, on));
+                x = nx;
+                y = ny;
+                i += 1;
+            }
+        }
+        contours.push(c);
+    }
+    SG { bbox: gen_bbox(rng), contours, instr: gen_instr(rng) }
+}
+/// glyphs made of long runs of identical flags (run lengths around the 255/256 repeat cap)
+fn gen_runs(rng: &mut Rng, lens: &[usize]) -> SG {
+    let mut c = vec![];
+    let (mut x, mut y) = (0i32, 0i32);
+    let mut prev_kind = 99;
+    for &k in lens {
+        // step kinds chosen so that coordinates stay in range for thousands of points
+        let mut kind = rng.below(6);
+        if kind == prev_kind {
+            kind = (kind + 1) % 6;
+        }
+        prev_kind = kind;
+        let (dx, dy, on) = match kind {
+            0 => (0, 0, true),
+            1 => (1, 0, true),
+            2 => (0, -1, false),
+            3 => (if x > 0 { -3 } else { 3 }, 0, true),
+            4 => (0, 0, false),
+            _ => (1, 1, true),
+        };
+        for _ in 0..k {
+            x = (x + dx).clamp(-32768, 32767);
+            y = (y + dy).clamp(-32768, 32767);
+            c.push((x as i16, y as i16, on));
+        }
+    }
+    // split into 1..3 contours
+    let mut contours = vec![];
+    if c.len() > 4 && rng.chance(1, 2) {
+        let cut = rng.range(1, c.len() as i64 - 1) as usize;
+        let tail = c.split_off(cut);
+        contours.push(c);
+        contours.push(tail);
+    } else {
+        contours.push(c);
+    }
+    SG { bbox: gen_bbox(rng), contours, instr: if rng.chance(1, 3) { gen_instr(rng) } else { vec![] } }
+}
+fn gen_f2dot14(rng: &mut Rng) -> i16 {
+    match rng.below(8) {
+        0 => 16384,
+        1 => 0,
+        2 => -16384,
+        3 => i16::MIN,
+        4 => i16::MAX,
+        5 => 8192,
+        _ => rng.range(-32768, 32767) as i16,
+    }
+}
+fn gen_comp(rng: &mut Rng) -> Comp {
+    let akind = rng.below(2) as u8;
+    let pick_off = |rng: &mut Rng| -> i32 {
+        match rng.below(10) {
+            0 => -128,
+            1 => 127,
+            2 => -129,
+            3 => 128,
+            4 => 0,
+            5 => i16::MIN as i32,
+            6 => i16::MAX as i32,
+            7 => rng.range(-128, 127) as i32,
+            _ => rng.range(-32768, 32767) as i32,
+        }
+    };
+    let pick_pt = |rng: &mut Rng| -> i32 {
+        match rng.below(7) {
+            0 => 0,
+            1 => 255,
+            2 => 256,
+            3 => 65535,
+            4 => rng.range(0, 255) as i32,
+            _ => rng.range(0, 65535) as i32,
+        }
+    };
+    let (a, b) = if akind == 0 { (pick_off(rng), pick_off(rng)) } else { (pick_pt(rng), pick_pt(rng)) };
+    let tr = match rng.below(8) {
+        0 | 1 => [16384, 0, 0, 16384],
+        2 => {
+            let s = gen_f2dot14(rng);
+            [s, 0, 0, s]
+        }
+        3 => [gen_f2dot14(rng), 0, 0, gen_f2dot14(rng)],
+        4 => [gen_f2dot14(rng), gen_f2dot14(rng), gen_f2dot14(rng), gen_f2dot14(rng)],
+        5 => [16384, gen_f2dot14(rng), 0, 16384],
+        6 => [16384, 0, gen_f2dot14(rng), 16384],
+        _ => [gen_f2dot14(rng), 0, 0, 16384],
+    };
+    Comp {
+        gid: match rng.below(4) {
+            0 => 0,
+            1 => 65535,
+            _ => rng.range(0, 65535) as u16,
+        },
+        akind,
+        a,
+        b,
+        uflags: rng.below(32) as u8,
+        tr,
+    }
+}
+fn gen_composite(rng: &mut Rng) -> CG {
+    let n = match rng.below(6) {
+        0 | 1 => 1,
+        2 | 3 => 2,
+        4 => 3,
+        _ => rng.range(4, 7) as usize,
+    };
+    CG {
+        bbox: gen_bbox(rng),
+        comps: (0..n).map(|_| gen_comp(rng)).collect(),
+        instr: if rng.chance(1, 3) { gen_instr(rng) } else { vec![] },
+    }
+}
+
+// ---------- running the real code ----------
+fn dump_simple(g: &SG) -> Result<Result<Vec<u8>, String>, String> {
+    let sg = to_simple(g);
+    catch(move || write_fonts::dump_table(&sg).map_err(|e| format!("{e:?}")))
+}
+fn dump_composite(g: &CG) -> Result<Result<Vec<u8>, String>, String> {
+    let g = g.clone();
+    catch(move || {
+        let cg = to_composite(&g)?;
+        write_fonts::dump_table(&cg).map_err(|e| format!("{e:?}"))
+    })
+}
+
+struct Ctx {
+    st: Stats,
+    cw: CaseWriter,
+}
+impl Ctx {
+    fn push(&mut self, kind: i64, ins: &[Vec<i128>], outs: &[Vec<i128>]) {
+        self.cw.push(format!("({}, {}, {})", kind, zll(ins), zll(outs)));
+        self.st.count(&format!("kind{}", kind));
+    }
+    fn fail(&mut self, key: String, what: &str, detail: serde_json::Value) {
+        self.st.oracle_failure(json!({"key": key, "what": what, "detail": detail}));
+    }
+}
+
+fn simple_key(g: &SG) -> String {
+    format!("simple-{:016x}", fnv(format!("{:?}", g).as_bytes()))
+}
+
+fn branch_counters(st: &mut Stats, g: &SG) {
+    let (mut lx, mut ly) = (0i32, 0i32);
+    for c in &g.contours {
+        if c.is_empty() {
+            st.count("br.empty_contour");
+        }
+        for p in c {
+            for d in [p.0 as i32 - lx, p.1 as i32 - ly] {
+                let k = match d {
+                    0 => "br.delta_zero",
+                    -255..=-1 => "br.delta_short_neg",
+                    1..=255 => "br.delta_short_pos",
+                    -32768..=-256 | 256..=32767 => "br.delta_long",
+                    _ => "br.delta_overflow",
+                };
+                st.count(k);
+                if d.abs() == 255 || d.abs() == 256 {
+                    st.count("br.delta_at_short_long_boundary");
+                }
+            }
+            lx = p.0 as i32;
+            ly = p.1 as i32;
+        }
+    }
+}
+
+/// kind 1 + oracle
+fn do_simple(cx: &mut Ctx, g: &SG, model: bool, special_key: Option<&str>) -> Option<Vec<u8>> {
+    let res = dump_simple(g);
+    cx.st.evaluations += 1;
+    branch_counters(&mut cx.st, g);
+    let key = special_key.map(|s| s.to_string()).unwrap_or_else(|| simple_key(g));
+    let accept = expected_accept(g);
+    let npts: usize = g.contours.iter().map(|c| c.len()).sum();
+    if npts > 1 {
+        cx.st.nontrivial(&format!("{:?}", g));
+    }
+    match &res {
+        Err(p) => {
+            cx.st.count("simple.writer_panic");
+            if accept {
+                cx.fail(key.clone(), "writer panicked on an acceptable simple glyph", json!({"panic": p, "glyph": format!("{:?}", g).chars().take(600).collect::<String>()}));
+            }
+        }
+        Ok(Err(_)) => cx.st.count("simple.validation_error"),
+        Ok(Ok(bytes)) => {
+            cx.st.count(if accept { "simple.accepted" } else { "simple.unexpectedly_accepted" });
+            if accept {
+                if let Some(why) = oracle_simple_bytes(g, bytes) {
+                    cx.fail(key.clone(), "decode(encode(simple glyph)) != glyph", json!({"why": why, "glyph": format!("{:?}", g).chars().take(600).collect::<String>()}));
+                }
+                let canon = canonical_len(g);
+                if bytes.len() > canon {
+                    cx.fail(key.clone(), "encoded simple glyph longer than the canonical shortest encoding", json!({"len": bytes.len(), "canonical": canon}));
+                } else if bytes.len() == canon {
+                    cx.st.count("simple.len_equals_canonical");
+                } else {
+                    cx.st.count("simple.len_below_canonical");
+                }
+            }
+        }
+    }
+    if model {
+        cx.push(1, &ser_simple_in(g), &ser_enc(&res));
+    }
+    cx.st.sample(json!({"kind":"simple","contours":g.contours.len(),"points":npts,"bytes":res.as_ref().ok().and_then(|r| r.as_ref().ok()).map(|b| b.len())}));
+    res.ok().and_then(|r| r.ok())
+}
+
+fn do_composite(cx: &mut Ctx, g: &CG, model: bool) -> Option<Vec<u8>> {
+    let res = dump_composite(g);
+    cx.st.evaluations += 1;
+    cx.st.nontrivial(&format!("{:?}", g));
+    let key = format!("composite-{:016x}", fnv(format!("{:?}", g).as_bytes()));
+    for c in &g.comps {
+        let two = if c.akind == 0 { !(-128..=127).contains(&c.a) || !(-128..=127).contains(&c.b) } else { c.a > 255 || c.b > 255 };
+        cx.st.count(&format!("br.anchor_{}_{}", if c.akind == 0 { "offset" } else { "point" }, if two { "words" } else { "bytes" }));
+        let t = if c.tr[1] != 0 || c.tr[2] != 0 { "2x2" } else if c.tr[0] != c.tr[3] { "xy_scale" } else if c.tr[0] != 16384 { "scale" } else { "identity" };
+        cx.st.count(&format!("br.transform_{}", t));
+    }
+    if !g.instr.is_empty() {
+        cx.st.count("br.composite_with_instructions");
+    }
+    match &res {
+        Err(p) => cx.fail(key, "composite writer panicked", json!({"panic": p, "glyph": format!("{:?}", g)})),
+        Ok(Err(e)) => cx.fail(key, "composite rejected", json!({"err": e, "glyph": format!("{:?}", g)})),
+        Ok(Ok(bytes)) => {
+            if let Some(why) = oracle_comp_bytes(g, bytes) {
+                cx.fail(key, "decode(encode(composite glyph)) != glyph", json!({"why": why, "glyph": format!("{:?}", g)}));
+            }
+        }
+    }
+    if model {
+        cx.push(3, &ser_comp_in(g), &ser_enc(&res));
+    }
+    res.ok().and_then(|r| r.ok())
+}
+
+fn do_decode(cx: &mut Ctx, bytes: &[u8]) {
+    cx.st.evaluations += 1;
+    let out = ser_decode(bytes);
+    match out[0][0] {
+        0 => {
+            cx.st.count("decode.panic");
+            // a reader panic on arbitrary bytes belongs to C01/C20; here it is a model mismatch
+        }
+        1 => cx.st.count("decode.read_error"),
+        2 => cx.st.count("decode.simple"),
+        _ => cx.st.count("decode.composite"),
+    }
+    cx.push(2, &[b2z(bytes)], &out);
+}
+
+fn mutate_bytes(rng: &mut Rng, b: &[u8]) -> Vec<u8> {
+    let mut v = b.to_vec();
+    if v.is_empty() {
+        return { let n = rng.range(0, 12) as usize; rng.bytes(n) };
+    }
+    match rng.below(8) {
+        0 => v.truncate(rng.below(v.len() as u64 + 1) as usize),
+        1 => {
+            let i = rng.below(v.len() as u64) as usize;
+            v[i] ^= 1 << rng.below(8);
+        }
+        2 => {
+            let i = rng.below(v.len() as u64) as usize;
+            v[i] = *rng.pick(&[0u8, 0xff, 0x08, 0x09, 0x80, 0x7f, 0x3f, 0x20]);
+        }
+        3 => {
+            // plant a repeat flag with a large count somewhere in the second half
+            let i = (v.len() / 2 + rng.below((v.len() + 1) as u64 / 2) as usize).min(v.len() - 1);
+            v[i] |= 0x08;
+            if i + 1 < v.len() {
+                v[i + 1] = *rng.pick(&[0u8, 1, 2, 254, 255]);
+            }
+        }
+        4 => v.extend({ let n = rng.range(1, 6) as usize; rng.bytes(n) }),
+        5 => {
+            // change the contour count
+            v[0] = *rng.pick(&[0u8, 0, 0x7f, 0x80, 0xff]);
+            if v.len() > 1 {
+                v[1] = *rng.pick(&[0u8, 1, 2, 3, 0xff]);
+            }
+        }
+        6 => {
+            let i = rng.below(v.len() as u64) as usize;
+            v.remove(i);
+        }
+        _ => {
+            let i = rng.below(v.len() as u64) as usize;
+            v.insert(i, rng.next_u32() as u8);
+        }
+    }
+    v
+}
+
+// ---------- loca ----------
+fn do_loca(cx: &mut Ctx, offs: &[u32]) {
+    cx.st.evaluations += 1;
+    let o = offs.to_vec();
+    let r = catch(move || {
+        let loca = Loca::new(o.clone());
+        let long = loca.format() == LocaFormat::Long;
+        let bytes = write_fonts::dump_table(&loca).unwrap();
+        let raws: Vec<i128> = match read_fonts::tables::loca::Loca::read(FontData::new(&bytes), long) {
+            Err(_) => vec![-2],
+            Ok(l) => (0..=o.len()).map(|i| l.get_raw(i).map(|v| v as i128).unwrap_or(-1)).collect(),
+        };
+        (long, bytes, raws)
+    });
+    match r {
+        Err(p) => cx.fail(format!("loca-{:?}", offs), "Loca::new/dump panicked", json!({"panic": p})),
+        Ok((long, bytes, raws)) => {
+            cx.st.count(if long { "br.loca_long" } else { "br.loca_short" });
+            let monotone = offs.windows(2).all(|w| w[0] <= w[1]);
+            if monotone {
+                cx.st.nontrivial(&format!("loca{:?}", offs));
+                // the offsets written are the offsets read
+                let exp: Vec<i128> = offs.iter().map(|v| *v as i128).chain([-1]).collect();
+                if raws != exp {
+                    cx.fail(format!("loca-{:?}", offs), "loca offsets read back differ from those written", json!({"offsets": offs, "read": format!("{:?}", raws), "long": long}));
+                }
+                // short is chosen exactly when it is exact and fits
+                let fits = offs.iter().all(|o| o % 2 == 0) && offs.last().copied().unwrap_or(0) <= 0x1FFFE;
+                if fits == long {
+                    cx.fail(format!("loca-{:?}", offs), "short/long choice differs from `all even and last <= 0x1FFFE`", json!({"offsets": offs, "long": long}));
+                }
+            } else {
+                cx.st.count("loca.non_monotone_input");
+            }
+            cx.push(4, &[offs.iter().map(|v| *v as i128).collect()], &[vec![long as i128], b2z(&bytes), raws]);
+        }
+    }
+}
+
+// ---------- builder ----------
+fn wsum(b: &[u8]) -> i128 {
+    let mut acc: i128 = 0;
+    for (i, x) in b.iter().enumerate() {
+        acc = (acc + (i as i128 + 1) * *x as i128) % 65521;
+    }
+    acc
+}
+fn ser_glyphs_in(gs: &[G]) -> Vec<Vec<i128>> {
+    let mut v = vec![];
+    for g in gs {
+        match g {
+            G::Empty => v.push(vec![0]),
+            G::Simple(s) => {
+                v.push(vec![1]);
+                v.extend(ser_simple_in(s));
+            }
+            G::Comp(c) => {
+                v.push(vec![3]);
+                v.extend(ser_comp_in(c));
+            }
+        }
+    }
+    v
+}
+struct Built {
+    glyf: Vec<u8>,
+    loca: Vec<u8>,
+    long: bool,
+    /// index in the input list of every glyph that was added (validation errors are skipped)
+    added: Vec<usize>,
+}
+fn run_builder(gs: &[G]) -> Result<Built, String> {
+    let gs = gs.to_vec();
+    catch(move || {
+        let mut b = GlyfLocaBuilder::new();
+        let mut added = vec![];
+        for (i, g) in gs.iter().enumerate() {
+            let r = match g {
+                G::Empty => b.add_glyph(&Glyph::Empty).map(|_| ()),
+                G::Simple(s) => b.add_glyph(&to_simple(s)).map(|_| ()),
+                G::Comp(c) => match to_composite(c) {
+                    Ok(cg) => b.add_glyph(&cg).map(|_| ()),
+                    Err(e) => panic!("cannot construct composite: {e}"),
+                },
+            };
+            if r.is_ok() {
+                added.push(i);
+            }
+        }
+        let (glyf, loca, fmt) = b.build();
+        Built {
+            glyf: write_fonts::dump_table(&glyf).unwrap(),
+            loca: write_fonts::dump_table(&loca).unwrap(),
+            long: fmt == LocaFormat::Long,
+            added,
+        }
+    })
+}
+fn do_builder(cx: &mut Ctx, gs: &[G], model: bool, tag: &str) {
+    cx.st.evaluations += 1;
+    let key = format!("builder-{}-{:016x}", tag, fnv(format!("{:?}", gs).as_bytes()));
+    let res = run_builder(gs);
+    let mut outs: Vec<Vec<i128>> = vec![];
+    match &res {
+        Err(p) => {
+            cx.st.count("builder.panic");
+            let ok_inputs = gs.iter().all(|g| match g {
+                G::Simple(s) => expected_accept(s),
+                _ => true,
+            });
+            if ok_inputs {
+                cx.fail(key, "GlyfLocaBuilder panicked on acceptable glyphs", json!({"panic": p}));
+            }
+            outs.push(vec![0]);
+        }
+        Ok(b) => {
+            cx.st.count(if b.long { "br.builder_long" } else { "br.builder_short" });
+            cx.st.nontrivial(&format!("{:?}", gs).chars().take(4000).collect::<String>());
+            let glyf_b = b.glyf.clone();
+            let loca_b = b.loca.clone();
+            let long = b.long;
+            let n = b.added.len();
+            let slices = catch(move || {
+                let glyf = rg::Glyf::read(FontData::new(&glyf_b)).unwrap();
+                let mut flat: Vec<i128> = vec![];
+                let mut per: Vec<Option<Vec<u8>>> = vec![];
+                match read_fonts::tables::loca::Loca::read(FontData::new(&loca_b), long) {
+                    Err(_) => flat.push(-2),
+                    Ok(l) => {
+                        for gid in 0..=n {
+                            match l.get_glyf(GlyphId::new(gid as u32), &glyf) {
+                                Err(_) => {
+                                    flat.push(1);
+                                    per.push(None);
+                                }
+                                Ok(None) => {
+                                    flat.push(2);
+                                    per.push(Some(vec![]));
+                                }
+                                Ok(Some(g)) => {
+                                    let d = g.offset_data().as_bytes().to_vec();
+                                    flat.extend([3, d.len() as i128, wsum(&d)]);
+                                    per.push(Some(d));
+                                }
+                            }
+                        }
+                    }
+                }
+                (flat, per)
+            });
+            match slices {
+                Err(p) => {
+                    cx.fail(key, "reading back the built glyf/loca panicked", json!({"panic": p}));
+                    outs.push(vec![0]);
+                }
+                Ok((flat, per)) => {
+                    // oracle: glyph i of the tables is the i-th glyph added
+                    let mut bad: Option<String> = None;
+                    if per.len() != n + 1 || per[n].is_some() {
+                        bad = Some("gid == glyph count is not out of bounds".into());
+                    }
+                    for (k, &i) in b.added.iter().enumerate() {
+                        if bad.is_some() {
+                            break;
+                        }
+                        let Some(Some(d)) = per.get(k) else {
+                            bad = Some(format!("glyph {k}: get_glyf error"));
+                            break;
+                        };
+                        let why = match &gs[i] {
+                            G::Empty => (!d.is_empty()).then(|| "empty glyph has data".to_string()),
+                            G::Simple(s) => oracle_simple_bytes(s, d),
+                            G::Comp(c) => oracle_comp_bytes(c, d),
+                        };
+                        if let Some(w) = why {
+                            bad = Some(format!("glyph {k}: {w}"));
+                        }
+                    }
+                    if let Some(w) = bad {
+                        cx.fail(key, "glyph i of (glyf, loca) is not the i-th glyph added", json!({"why": w, "long": b.long, "glyf_len": b.glyf.len()}));
+                    }
+                    outs = vec![vec![1], b2z(&b.glyf), vec![b.long as i128], b2z(&b.loca), flat];
+                }
+            }
+        }
+    }
+    if model {
+        cx.push(5, &ser_glyphs_in(gs), &outs);
+    }
+}
+
+/// a 1-point glyph whose encoding is exactly `len` bytes (len even, >= 16): 15 + instructions
+fn filler_glyph(len: usize) -> SG {
+    assert!(len % 2 == 0 && len >= 16 && len - 15 < 65535);
+    SG { bbox: [0; 4], contours: vec![vec![(0, 0, true)]], instr: vec![0x4b; len - 15] }
+}
+
+// ---------- drawing ----------
+#[derive(Clone, Debug, PartialEq)]
+enum Seg {
+    L((f64, f64), (f64, f64)),
+    Q((f64, f64), (f64, f64), (f64, f64)),
+}
+#[derive(Default)]
+struct RecPen {
+    contours: Vec<Vec<Seg>>,
+    cur: (f64, f64),
+    start: (f64, f64),
+    open: bool,
+    cubic: bool,
+    moves: usize,
+    closes: usize,
+}
+impl skrifa::outline::OutlinePen for RecPen {
+    fn move_to(&mut self, x: f32, y: f32) {
+        self.contours.push(vec![]);
+        self.cur = (x as f64, y as f64);
+        self.start = self.cur;
+        self.open = true;
+        self.moves += 1;
+    }
+    fn line_to(&mut self, x: f32, y: f32) {
+        let p = (x as f64, y as f64);
+        if let Some(c) = self.contours.last_mut() {
+            c.push(Seg::L(self.cur, p));
+        }
+        self.cur = p;
+    }
+    fn quad_to(&mut self, cx0: f32, cy0: f32, x: f32, y: f32) {
+        let p = (x as f64, y as f64);
+        if let Some(c) = self.contours.last_mut() {
+            c.push(Seg::Q(self.cur, (cx0 as f64, cy0 as f64), p));
+        }
+        self.cur = p;
+    }
+    fn curve_to(&mut self, _: f32, _: f32, _: f32, _: f32, _: f32, _: f32) {
+        self.cubic = true;
+    }
+    fn close(&mut self) {
+        if self.cur != self.start {
+            let (c, s) = (self.cur, self.start);
+            if let Some(k) = self.contours.last_mut() {
+                k.push(Seg::L(c, s));
+            }
+        }
+        self.cur = self.start;
+        self.open = false;
+        self.closes += 1;
+    }
+}
+/// geometric normal form: drop zero-length lines; split a quad whose end point is not a break
+/// between two quads... (kept simple: compare the point sets of the flattened control polygon)
+fn normalise(cs: &[Vec<Seg>]) -> Vec<Vec<Seg>> {
+    cs.iter()
+        .map(|c| c.iter().filter(|s| !matches!(s, Seg::L(a, b) if a == b)).cloned().collect::<Vec<_>>())
+        .collect()
+}
+fn path_segments(path: &kurbo::BezPath) -> Vec<Vec<Seg>> {
+    use kurbo::PathEl::*;
+    let mut out: Vec<Vec<Seg>> = vec![];
+    let mut cur = (0.0, 0.0);
+    let mut start = (0.0, 0.0);
+    let close = |out: &mut Vec<Vec<Seg>>, cur: (f64, f64), start: (f64, f64)| {
+        if cur != start {
+            if let Some(c) = out.last_mut() {
+                c.push(Seg::L(cur, start));
+            }
+        }
+    };
+    let mut open = false;
+    for el in path.elements() {
+        match *el {
+            MoveTo(p) => {
+                if open {
+                    close(&mut out, cur, start);
+                }
+                out.push(vec![]);
+                cur = (p.x, p.y);
+                start = cur;
+                open = true;
+            }
+            LineTo(p) => {
+                out.last_mut().unwrap().push(Seg::L(cur, (p.x, p.y)));
+                cur = (p.x, p.y);
+            }
+            QuadTo(c, p) => {
+                out.last_mut().unwrap().push(Seg::Q(cur, (c.x, c.y), (p.x, p.y)));
+                cur = (p.x, p.y);
+            }
+            CurveTo(..) => unreachable!(),
+            ClosePath => {
+                close(&mut out, cur, start);
+                cur = start;
+                open = false;
+            }
+        }
+    }
+    if open {
+        close(&mut out, cur, start);
+    }
+    out
+}
+fn gen_path(rng: &mut Rng) -> kurbo::BezPath {
+    let mut p = kurbo::BezPath::new();
+    let nc = rng.range(1, 3);
+    let coord = |rng: &mut Rng| -> f64 {
+        match rng.below(8) {
+            0 => *rng.pick(&[-16384.0, 16383.0, 0.0, -1.0, 1.0, 255.0, 256.0, -255.0, -256.0]),
+            1 | 2 => rng.range(-300, 300) as f64,
+            _ => rng.range(-16000, 16000) as f64,
+        }
+    };
+    for _ in 0..nc {
+        let s = (coord(rng), coord(rng));
+        p.move_to(s);
+        let n = rng.range(1, 6);
+        let mut last_off: Option<(f64, f64)> = None;
+        let mut cur = s;
+        for k in 0..n {
+            if rng.chance(1, 2) {
+                // quad; sometimes place the on-curve end exactly between this and the next control
+                let c0 = (coord(rng), coord(rng));
+                let mut e = (coord(rng), coord(rng));
+                if let (Some(_), true) = (last_off, rng.chance(1, 2)) {
+                    // nothing: previous elision already arranged
+                }
+                if rng.chance(1, 2) && k + 1 < n {
+                    // pre-arrange an implied point: next control = 2*e - c0 if in range
+                    let nx = (2.0 * e.0 - c0.0, 2.0 * e.1 - c0.1);
+                    if nx.0.abs() < 16000.0 && nx.1.abs() < 16000.0 {
+                        p.quad_to(c0, e);
+                        let e2 = (coord(rng), coord(rng));
+                        p.quad_to(nx, e2);
+                        cur = e2;
+                        last_off = Some(nx);
+                        continue;
+                    }
+                }
+                if rng.chance(1, 6) {
+                    e = s; // curve back to the start point
+                }
+                p.quad_to(c0, e);
+                cur = e;
+                last_off = Some(c0);
+            } else {
+                let mut e = (coord(rng), coord(rng));
+                if rng.chance(1, 8) {
+                    e = s;
+                }
+                if rng.chance(1, 10) {
+                    e = cur;
+                }
+                p.line_to(e);
+                cur = e;
+                last_off = None;
+            }
+        }
+        if rng.chance(3, 4) {
+            p.close_path();
+        }
+    }
+    p
+}
+fn minimal_font(glyf: &[u8], loca: &[u8], long: bool, lsbs: &[i16]) -> Vec<u8> {
+    let n_glyphs = lsbs.len() as u16;
+    use write_fonts::tables::{head::Head, hhea::Hhea, hmtx::Hmtx, hmtx::LongMetric, maxp::Maxp};
+    let head = Head { units_per_em: 1000, index_to_loc_format: long as i16, ..Default::default() };
+    let maxp = Maxp::new(n_glyphs);
+    let hhea = Hhea { number_of_h_metrics: n_glyphs, ..Default::default() };
+    let hmtx = Hmtx::new(lsbs.iter().map(|l| LongMetric::new(500, *l)).collect(), vec![]);
+    let mut fb = write_fonts::FontBuilder::new();
+    fb.add_table(&head).unwrap();
+    fb.add_table(&maxp).unwrap();
+    fb.add_table(&hhea).unwrap();
+    fb.add_table(&hmtx).unwrap();
+    fb.add_raw(read_fonts::types::Tag::new(b"glyf"), glyf.to_vec());
+    fb.add_raw(read_fonts::types::Tag::new(b"loca"), loca.to_vec());
+    fb.build()
+}
+fn do_draw(cx: &mut Ctx, rng: &mut Rng, n_fonts: usize) {
+    use skrifa::instance::{LocationRef, Size};
+    use skrifa::outline::DrawSettings;
+    use skrifa::MetadataProvider;
+    for _ in 0..n_fonts {
+        let paths: Vec<kurbo::BezPath> = (0..rng.range(1, 5)).map(|_| gen_path(rng)).collect();
+        let paths2 = paths.clone();
+        let r = catch(move || -> Result<(Vec<u8>, Vec<bool>), String> {
+            let mut b = GlyfLocaBuilder::new();
+            let mut ok = vec![];
+            let mut lsbs: Vec<i16> = vec![0];
+            b.add_glyph(&Glyph::Empty).map_err(|e| format!("{e:?}"))?;
+            for p in &paths2 {
+                match SimpleGlyph::from_bezpath(p) {
+                    Ok(g) => {
+                        b.add_glyph(&g).map_err(|e| format!("{e:?}"))?;
+                        // left side bearing = xMin, as a consistent font has it (otherwise the
+                        // scaler shifts the outline by xMin - lsb, as FreeType does)
+                        lsbs.push(g.bbox.x_min);
+                        ok.push(true);
+                    }
+                    Err(_) => {
+                        b.add_glyph(&Glyph::Empty).map_err(|e| format!("{e:?}"))?;
+                        lsbs.push(0);
+                        ok.push(false);
+                    }
+                }
+            }
+            let (glyf, loca, fmt) = b.build();
+            let font = minimal_font(
+                &write_fonts::dump_table(&glyf).unwrap(),
+                &write_fonts::dump_table(&loca).unwrap(),
+                fmt == LocaFormat::Long,
+                &lsbs,
+            );
+            Ok((font, ok))
+        });
+        cx.st.evaluations += 1;
+        let (font_bytes, ok) = match r {
+            Err(p) => {
+                // i16 delta overflow between extreme coordinates is a legitimate refusal
+                if p.contains("overflow") {
+                    cx.st.count("draw.writer_overflow_panic");
+                } else {
+                    cx.fail(format!("draw-{:016x}", fnv(format!("{:?}", paths).as_bytes())), "building a font from line/quad paths panicked", json!({"panic": p}));
+                }
+                continue;
+            }
+            Ok(Err(e)) => {
+                cx.fail(format!("draw-{:016x}", fnv(format!("{:?}", paths).as_bytes())), "builder rejected a from_bezpath glyph", json!({"err": e}));
+                continue;
+            }
+            Ok(Ok(v)) => v,
+        };
+        for (i, p) in paths.iter().enumerate() {
+            if !ok[i] {
+                cx.st.count("draw.malformed_path");
+                continue;
+            }
+            let fbytes = font_bytes.clone();
+            let drawn = catch(move || -> Result<RecPen, String> {
+                let font = FontRef::new(&fbytes).map_err(|e| format!("{e:?}"))?;
+                let _ = font.head().map_err(|e| format!("{e:?}"))?;
+                let glyphs = font.outline_glyphs();
+                let g = glyphs.get(GlyphId::new(i as u32 + 1)).ok_or("no outline glyph")?;
+                let mut pen = RecPen::default();
+                g.draw(DrawSettings::unhinted(Size::unscaled(), LocationRef::default()), &mut pen).map_err(|e| format!("{e:?}"))?;
+                Ok(pen)
+            });
+            let key = format!("draw-{:016x}", fnv(p.to_svg().as_bytes()));
+            match drawn {
+                Err(pn) => cx.fail(key, "drawing panicked", json!({"panic": pn, "path": p.to_svg()})),
+                Ok(Err(e)) => cx.fail(key, "drawing failed", json!({"err": e, "path": p.to_svg()})),
+                Ok(Ok(pen)) => {
+                    cx.st.count("draw.glyphs");
+                    let want = normalise(&path_segments(p));
+                    let got = normalise(&pen.contours);
+                    let nsub = want.len();
+                    if pen.cubic || pen.open || pen.moves != nsub || pen.closes != nsub {
+                        cx.fail(key, "drawn path is not one move/close per contour", json!({"path": p.to_svg(), "moves": pen.moves, "closes": pen.closes}));
+                    } else if want != got {
+                        cx.fail(key, "glyph built from a line/quad path does not draw (unscaled) as that path", json!({"path": p.to_svg(), "want": format!("{:?}", want), "got": format!("{:?}", got)}));
+                    } else {
+                        cx.st.nontrivial(&p.to_svg());
+                        if want.iter().flatten().any(|s| matches!(s, Seg::Q(..))) {
+                            cx.st.count("draw.with_quads");
+                        }
+                    }
+                }
+            }
+        }
+    }
+}
+
 fn main() {
     silence_panics();
-    for n in [255usize, 256, 257, 600] {
-        let pts: Vec<CurvePoint> = (0..n).map(|i| CurvePoint::new(i as i16 + 1, 0, true)).collect();
-        let g = SimpleGlyph { bbox: Bbox::default(), contours: vec![Contour::from(pts.clone())], instructions: vec![] };
-        let bytes = write_fonts::dump_table(&g).unwrap();
-        let r = catch(move || {
-            let rg = read_fonts::tables::glyf::SimpleGlyph::read(bytes.as_slice().into()).unwrap();
-            rg.points().collect::<Vec<_>>()
-        });
-        println!("{} -> {:?}", n, r.map(|v| v == pts));
+    let args: Vec<String> = std::env::args().collect();
+    let thorough = tier_is_thorough(&args);
+    let seed = seed_from_env();
+    let dir = out_dir(&args, "C09");
+    let mut rng = Rng::new(seed);
+    let cw = CaseWriter::new(
+        &dir,
+        "From Coq Require Import ZArith List. Import ListNotations. Open Scope Z_scope.\nFrom FV Require Import Lib.Cases C09.Model.",
+        "Z * list zl * list zl",
+        "check_case",
+        200,
+    );
+    let mut cx = Ctx { st: Stats::new(), cw };
+    let scale = if thorough { 8 } else { 1 };
+
+    // --- fixed boundary glyphs: flag runs around the repeat cap (regression for the
+    //     PointIter repeat-count-255 overflow fixed in /repo 229e2c6) ---
+    for &k in &[1usize, 2, 3, 4, 255, 256, 257, 258, 259, 511, 512, 513, 600] {
+        for kind in 0..3 {
+            let pts: Vec<Pt> = (0..k)
+                .map(|i| match kind {
+                    0 => (i as i16 + 1, 0, true),
+                    1 => (7, 7, false),
+                    _ => (-(i as i16) - 1, i as i16 + 1, true),
+                })
+                .collect();
+            let g = SG { bbox: [0, 0, 10, 10], contours: vec![pts], instr: vec![] };
+            let key = if k >= 256 { Some("pointiter-repeat-255") } else { None };
+            do_simple(&mut cx, &g, true, key);
+            cx.st.count(&format!("br.flag_run_{}", k));
+        }
     }
+    // mixtures of runs
+    for _ in 0..(30 * scale) {
+        let n = rng.range(1, 5) as usize;
+        let lens: Vec<usize> = (0..n).map(|_| *rng.pick(&[1usize, 2, 2, 3, 5, 254, 255, 256, 257, 258, 300, 600])).collect();
+        let g = gen_runs(&mut rng, &lens);
+        let big = lens.iter().any(|k| *k >= 256);
+        do_simple(&mut cx, &g, true, if big { Some("pointiter-repeat-255") } else { None });
+    }
+    // delta boundaries, each alone and in sign-changing pairs
+    for d in [0i32, 1, -1, 254, 255, 256, 257, -254, -255, -256, -257, 32767, -32767, -32768] {
+        for e in [0i32, 255, -255, 256, -256, 1] {
+            let x1 = d.clamp(-32768, 32767);
+            let pts = vec![(x1 as i16, e as i16, true), ((x1 - d).clamp(-32768, 32767) as i16, 0, false), (x1 as i16, (-e) as i16, true)];
+            do_simple(&mut cx, &SG { bbox: [-1, -2, 3, 4], contours: vec![pts], instr: vec![1, 2, 3] }, true, None);
+        }
+    }
+    // writer refusals: i16 difference overflow, empty first contour, no contours
+    do_simple(&mut cx, &SG { bbox: [0; 4], contours: vec![vec![(-32768, 0, true), (32767, 0, true)]], instr: vec![] }, true, None);
+    do_simple(&mut cx, &SG { bbox: [0; 4], contours: vec![vec![(1, 32767, true), (1, -2, true)]], instr: vec![] }, true, None);
+    do_simple(&mut cx, &SG { bbox: [0; 4], contours: vec![vec![], vec![(1, 1, true)]], instr: vec![] }, true, None);
+    do_simple(&mut cx, &SG { bbox: [0; 4], contours: vec![vec![(1, 1, true)], vec![], vec![(2, 2, false)], vec![]], instr: vec![] }, true, None);
+    do_simple(&mut cx, &SG { bbox: [1, 2, 3, 4], contours: vec![], instr: vec![9] }, true, None);
+    // instruction length limits: 65534 ok, 65535 assert, 65536 validation error
+    for n in [65533usize, 65534, 65535, 65536] {
+        do_simple(&mut cx, &SG { bbox: [0; 4], contours: vec![vec![(5, 5, true)]], instr: vec![7; n] }, true, None);
+        cx.st.count(&format!("br.instr_len_{}", n));
+    }
+    // contour-count assert and 65535/65536 points: implementation only (too large for the shards)
+    for nc in [32766usize, 32767] {
+        let g = SG { bbox: [0; 4], contours: (0..nc).map(|i| vec![((i % 100) as i16, 0, true)]).collect(), instr: vec![] };
+        do_simple(&mut cx, &g, false, None);
+        cx.st.count(&format!("br.contours_{}", nc));
+    }
+    for np in [65535usize, 65536] {
+        let g = SG { bbox: [0; 4], contours: vec![(0..np).map(|i| ((i % 7) as i16, (i % 3) as i16, i % 2 == 0)).collect()], instr: vec![] };
+        do_simple(&mut cx, &g, false, None);
+        cx.st.count(&format!("br.points_{}", np));
+    }
+
+    // --- random simple glyphs ---
+    let mut corpus: Vec<Vec<u8>> = vec![];
+    for i in 0..(1400 * scale) {
+        let g = gen_simple(&mut rng, i % 5 == 0);
+        if let Some(b) = do_simple(&mut cx, &g, true, None) {
+            if corpus.len() < 400 && !b.is_empty() {
+                corpus.push(b);
+            }
+        }
+    }
+    // --- composites ---
+    for _ in 0..(500 * scale) {
+        let g = gen_composite(&mut rng);
+        if let Some(b) = do_composite(&mut cx, &g, true) {
+            if corpus.len() < 600 {
+                corpus.push(b);
+            }
+        }
+    }
+    // every anchor/transform kind at its boundaries, exhaustively small
+    for (akind, a, b) in [(0u8, -128, 127), (0, -129, 0), (0, 0, 128), (0, 127, -128), (1, 255, 255), (1, 256, 0), (1, 0, 256), (1, 65535, 65535)] {
+        for tr in [[16384i16, 0, 0, 16384], [8192, 0, 0, 8192], [16384, 0, 0, -16384], [16384, 1, 0, 16384], [16384, 0, -1, 16384], [0, 0, 0, 0], [-32768, 32767, -1, 1]] {
+            for uflags in [0u8, 31, 1, 2, 4, 8, 16] {
+                let c = Comp { gid: 7, akind, a, b, uflags, tr };
+                let g = CG { bbox: [-5, -6, 7, 8], comps: vec![c.clone(), c.clone()], instr: if uflags == 31 { vec![0xb0, 1] } else { vec![] } };
+                do_composite(&mut cx, &g, uflags < 4);
+            }
+        }
+    }
+    // --- malformed / arbitrary bytes through Glyph::read ---
+    for _ in 0..(900 * scale) {
+        let base = rng.pick(&corpus).clone();
+        let mut m = mutate_bytes(&mut rng, &base);
+        if rng.chance(1, 4) {
+            m = mutate_bytes(&mut rng, &m);
+        }
+        do_decode(&mut cx, &m);
+    }
+    for _ in 0..(150 * scale) {
+        let mut b = { let n = rng.range(0, 40) as usize; rng.bytes(n) };
+        if b.len() >= 2 {
+            if rng.chance(1, 2) {
+                b[0] = 0;
+                b[1] = rng.below(3) as u8;
+            } else if rng.chance(1, 2) {
+                b[0] = 0xff;
+                b[1] = 0xff;
+            }
+        }
+        do_decode(&mut cx, &b);
+    }
+    // --- loca ---
+    let mut locas: Vec<Vec<u32>> = vec![
+        vec![],
+        vec![0],
+        vec![0, 0],
+        vec![0, 2],
+        vec![0, 1],
+        vec![0, 3, 8],
+        vec![24, 48, 112],
+        vec![0, 0x1FFFC, 0x1FFFE],
+        vec![0, 0x1FFFE],
+        vec![0, 0x1FFFF],
+        vec![0, 0x20000],
+        vec![0, 0x20002],
+        vec![0, 0x1FFFE, 0x1FFFE],
+        vec![0, 0x10000, 0x1FFFE],
+        vec![0, 0xFFFE, 0x10000, 0x10002],
+        vec![0, 0xFFFFFFFE],
+        vec![0, 0xFFFFFFFF],
+        vec![0x20000],
+        vec![0x1FFFE],
+        // Loca::new is public: non-monotone input (last small, middle large)
+        vec![0, 0x30000, 10],
+        vec![0, 0x20000, 0x1FFFE],
+    ];
+    for _ in 0..(120 * scale) {
+        let n = rng.range(1, 8) as usize;
+        let mut v = vec![0u32];
+        let mut cur = 0u32;
+        let big = rng.chance(1, 3);
+        for _ in 0..n {
+            let step = match rng.below(6) {
+                0 => 0,
+                1 => rng.range(1, 50) as u32 * 2,
+                2 if big => rng.range(0x8000, 0x12000) as u32 * 2,
+                3 => rng.range(1, 99) as u32,
+                _ => rng.range(0, 300) as u32 * 2,
+            };
+            cur = cur.saturating_add(step);
+            v.push(cur);
+        }
+        if big && rng.chance(1, 2) {
+            // land exactly around the boundary
+            let t = *rng.pick(&[0x1FFFCu32, 0x1FFFE, 0x20000, 0x20002, 0x1FFFF]);
+            if *v.last().unwrap() < t {
+                v.push(t);
+            }
+        }
+        locas.push(v);
+    }
+    for l in &locas {
+        do_loca(&mut cx, l);
+    }
+    // --- builder: small sequences (model) ---
+    for _ in 0..(350 * scale) {
+        let n = rng.range(0, 6) as usize;
+        let gs: Vec<G> = (0..n)
+            .map(|_| match rng.below(6) {
+                0 => G::Empty,
+                1 | 2 => G::Comp(gen_composite(&mut rng)),
+                3 => {
+                    let mut s = gen_simple(&mut rng, false);
+                    s.contours.clear(); // SimpleGlyph without contours: writes nothing
+                    G::Simple(s)
+                }
+                _ => G::Simple(gen_simple(&mut rng, false)),
+            })
+            .collect();
+        do_builder(&mut cx, &gs, true, "small");
+    }
+    // builder with a refused glyph in the middle (validation error is skipped; panic poisons)
+    do_builder(&mut cx, &[G::Simple(filler_glyph(20)), G::Simple(SG { bbox: [0; 4], contours: vec![vec![(1, 1, true)]], instr: vec![0; 65536] }), G::Empty, G::Simple(filler_glyph(16))], true, "validation");
+    // --- builder: sequences straddling the short/long boundary (total 0x1FFFC .. 0x20004) ---
+    for total in [0x1FFFCusize, 0x1FFFE, 0x20000, 0x20002, 0x20004] {
+        for variant in 0..2 {
+            let a = 43000 + 2 * (rng.below(200) as usize);
+            let b = 43690;
+            let small = gen_simple(&mut rng, false);
+            let small_len = dump_simple(&small).ok().and_then(|r| r.ok()).map(|b| b.len()).unwrap_or(0);
+            let comp = gen_composite(&mut rng);
+            let comp_len = dump_composite(&comp).ok().and_then(|r| r.ok()).map(|b| b.len()).unwrap_or(0);
+            let used = a + b + small_len + comp_len;
+            let c = total - used;
+            let mut gs = vec![G::Empty, G::Simple(filler_glyph(a)), G::Simple(small), G::Simple(filler_glyph(b)), G::Comp(comp), G::Simple(filler_glyph(c))];
+            if variant == 1 {
+                gs.push(G::Empty);
+                gs.insert(2, G::Empty);
+            }
+            do_builder(&mut cx, &gs, true, &format!("boundary-{:x}-{}", total, variant));
+            cx.st.count(&format!("br.builder_total_{:x}", total));
+        }
+    }
+    // --- drawing (implementation only) ---
+    do_draw(&mut cx, &mut rng, 250 * scale);
+
+    let shards = cx.cw.finish();
+    cx.st.v.insert("shards".into(), shards.into());
+    cx.st.v.insert("model_cases".into(), cx.cw.len().into());
+    cx.st.write(&dir, "simple glyphs: per-point delta classes (0, +-1, +-2..254, +-255, +-256, +-257, .., +-32767/8, unrepresentable) with runs of identical steps, fixed flag runs 1..600 around the 255/256 repeat cap, contour counts 0..9 with empty contours, instruction lengths up to the 65534/65535/65536 limits; composites: every anchor form (i8/i16 offsets, u8/u16 points) x transform form x user flags, with/without instructions; mutated and random bytes through Glyph::read; Loca::new offsets around 0x1FFFE/0x20000 incl. odd and non-monotone; builder sequences (empty/simple/composite) incl. totals 0x1FFFC..0x20004; drawing of random integer line/quad paths. non-trivial = simple glyph with >1 point / any composite / monotone loca / builder sequence / drawn path (distinct by content)");
+    println!("cases={} shards={} oracle_failures={}", cx.cw.len(), shards, cx.st.oracle_failures.len());
 }
